@@ -134,6 +134,8 @@ func TestVerifN2HCorr(t *testing.T) {
 			body := r.Bytes(r.Intn(24))
 			if r.Intn(3) == 0 {
 				body = []byte(fmt.Sprintf("msg %d &=%%+/?", id))
+			} else if r.Intn(5) == 0 {
+				body = []byte(fmt.Sprintf(" \tpadded %d\r\n", id))
 			}
 			stalls := 0
 			stub.mu.Lock()
